@@ -105,19 +105,42 @@ def extract_hash():
     hdt = find_def(dh, "_hash_dict_tuple")
     ret = [n for n in ast.walk(hdt) if isinstance(n, ast.Return)][-1]
     dict_sep = only(set(str_consts(ret.value)), "dict separator")
-    # default marker used by get_arg_ctx / get_arg_ctx_ast
-    markers = set()
-    for fname in ("get_arg_ctx", "get_arg_ctx_ast"):
-        f = find_def(tree, fname)
-        for n in ast.walk(f):
-            if isinstance(n, ast.BoolOp) and isinstance(n.op, ast.Or) and isinstance(n.values[-1], ast.Constant):
-                markers.add(n.values[-1].value)
-            if isinstance(n, ast.IfExp) and isinstance(n.orelse, ast.Constant):
-                markers.add(n.orelse.value)
+    # how argument values / defaults / literals are hashed: every route must go through one helper that replaces
+    # None (and only None) by the marker string, or (pinned code) use `p.default or MARK`
+    markers, styles = set(), set()
+    helper = None
+    try:
+        helper = find_def(tree, "_hash_arg")
+    except Unrecognised:
+        pass
+    if helper is not None:
+        ife = [n for n in ast.walk(helper) if isinstance(n, ast.IfExp)]
+        e = only(ife, "_hash_arg conditional")
+        if ast.unparse(e.test) != "x is not None" or not isinstance(e.orelse, ast.Constant):
+            raise Unrecognised("_hash_arg: " + ast.unparse(e))
+        markers.add(e.orelse.value)
+        styles.add("is_none")
+        # every dds_hash call of the two argument-context functions must be the helper
+        for fname in ("get_arg_ctx", "get_arg_ctx_ast"):
+            f = find_def(tree, fname)
+            for n in ast.walk(f):
+                if isinstance(n, ast.Call) and getattr(n.func, "id", None) == "dds_hash":
+                    raise Unrecognised(f"{fname} calls dds_hash directly: {ast.unparse(n)}")
+            calls = [ast.unparse(n.args[0]) for n in ast.walk(f) if isinstance(n, ast.Call) and getattr(n.func, "id", None) == "_hash_arg"]
+            want = {"get_arg_ctx": ["args[idx]", "kwargs[n]", "p.default"], "get_arg_ctx_ast": ["node.value", "p.default"]}[fname]
+            if sorted(calls) != sorted(want):
+                raise Unrecognised(f"{fname}: _hash_arg applied to {calls}")
+    else:
+        for fname in ("get_arg_ctx", "get_arg_ctx_ast"):
+            f = find_def(tree, fname)
+            for n in ast.walk(f):
+                if isinstance(n, ast.BoolOp) and isinstance(n.op, ast.Or) and isinstance(n.values[-1], ast.Constant):
+                    markers.add(n.values[-1].value)
+                    styles.add("or")
+                if isinstance(n, ast.IfExp) and isinstance(n.orelse, ast.Constant):
+                    markers.add(n.orelse.value)
     default_marker = only(markers, "default marker")
-    # how the default value is substituted: `p.default or MARK` (falsy defaults collapse) vs an explicit None test
-    gac = find_def(tree, "get_arg_ctx")
-    default_style = "or" if any(isinstance(n, ast.BoolOp) and isinstance(n.op, ast.Or) for n in ast.walk(gac)) else "is_none"
+    default_style = "or" if "or" in styles else "is_none"
     # guard of check_len
     cl = find_def(dh, "check_len")
     guard = ast.unparse(cl.body[0].test) if isinstance(cl.body[0], ast.If) else "?"
